@@ -1151,7 +1151,7 @@ fn scenario_for(d: &Data, seed: u64, tr: &Tier, i: usize) -> Scn {
     } else if i < tr.clean + tr.faulty {
         c20gen::gen_scn(d, &mut r, true, None)
     } else {
-        let kind = ["cycle", "cycle", "cycle", "dangling", "duplicate"][r.below(5)];
+        let kind = ["cycle", "cycle", "cycle", "dangling", "duplicate", "two-configs"][r.below(6)];
         c20gen::gen_scn(d, &mut r, false, Some(kind))
     }
 }
